@@ -20,7 +20,7 @@ import (
 	"syscall"
 	"time"
 
-	"github.com/lugu/qiloop/bus/util/vsync"
+	"verif/vsync"
 )
 
 // Ctx is one worker invocation (one shard segment of one property check).
